@@ -1,7 +1,371 @@
+/-
+Driver for C07. One case = three requests (clean warm-up, the request under test with a fault
+injected at ONE plugin, a following request) against a real Adaptation with `n` plugins
+`a`,`b`,`c` (indices 10,20,30), written by harness/c07.
+
+`agree`: the per-plugin outcome the fault produces (for corrupted bytes: the outcome class the
+harness observed) is fed to the model (`Dispatch.request`, twice); invocation logs, replies,
+error class and who is still invoked afterwards must be what the model computes.
+`spec`: the property evaluated on the observation itself: no crash, no hang, wall time within
+n × timeout + slack, a transport fault never fails the request, the other plugins'
+contributions are intact, the failed plugin is not invoked again, a handler error fails the
+request with that error, invokes nobody later and returns nothing.
+-/
 import Driver.Common
-open Lean Drv
+import Driver.C06
+import NriModel.Dispatch
+open Lean Drv Nri Nri.Events Nri.Dispatch
+open Drv.C06 (PSpec Inv Res decInv decRes contrib showItems merger mkPlugin hasReply lenClass)
+
 namespace Drv.C07
-/-- placeholder until the property's driver is written -/
-def judge (_ : Json) : Except String Verdict := .error "C07 driver not implemented"
+
+structure RObs where
+  res : Res
+  log : List Inv
+  wall : Nat
+
+def decRObs (j : Json) : Except String RObs := do
+  pure { res := ← decRes (← getObj j "res"), log := ← (← getArr j "log").mapM decInv, wall := getNatD j "wall_ms" }
+
+def pname (i : Nat) : String := ["a", "b", "c", "d", "e"].getD i "?"
+def pidx (i : Nat) : String := toString (10 * (i + 1))
+
+def specs (n : Nat) : List PSpec :=
+  (List.range n).map fun i => { id := i, idx := pidx i, name := pname i, mask := 0, veto := 0, clash := 0, raw := false }
+
+inductive Class | ok | dropped | err
+  deriving DecidableEq, Repr
+
+def Class.str : Class → String
+  | .ok => "ok" | .dropped => "dropped" | .err => "error"
+
+/-- model call of the faulty plugin for an outcome class -/
+def faultyCall (s : PSpec) (ev : Nat) (rid : String) (c : Class) (reached : Bool) (T : Nat) (late : Bool) :
+    Call C06.Items :=
+  match c with
+  | .ok => { out := .ok (contrib s ev rid), reached := true, cost := 0 }
+  | .err => { out := .handlerErr (S s.name), reached := reached, cost := 0 }
+  | .dropped =>
+    if late then { out := .ok (contrib s ev rid), reached := reached, cost := T + 1 }   -- answers after the deadline
+    else { out := .fatal .closed, reached := reached, cost := 0 }
+
+structure Expect where
+  handled : List String
+  err : String
+  items : List String
+  isNil : Bool
+  after : List Plugin
+
+def runModel (sp : List PSpec) (ps : List Plugin) (ev : Nat) (rid : String) (faulty : Nat)
+    (fc : Call C06.Items) (T : Nat) : Expect :=
+  let pcs := ps.map fun p =>
+    if p.id == faulty then (p, fc)
+    else (p, ({ out := .ok (contrib (C06.specOf sp p.id) ev rid), reached := true, cost := 0 } : Call C06.Items))
+  let (res, tr, after) := request merger T ev pcs
+  let handled := tr.handled.map (U ·.name)
+  match res with
+  | .ok items => { handled, err := "", items, isNil := !hasReply ev, after }
+  | .error _ => { handled, err := "error", items := [], isNil := true, after }
+
+def cmp (what : String) (e : Expect) (o : RObs) (skipItems : Bool := false) : Option String :=
+  let names := o.log.map (·.p)
+  let oerr := if o.res.err == "" then "" else "error"
+  if e.handled != names then some s!"{what}: invocations: model {e.handled} impl {names}"
+  else if e.err != oerr then some s!"{what}: model '{e.err}' impl '{o.res.err}' ({o.res.errtext})"
+  else if !skipItems && e.items != o.res.items then some s!"{what}: reply: model {e.items} impl {o.res.items}"
+  else if e.isNil != o.res.isNil then some s!"{what}: reply nil: model {e.isNil} impl {o.res.isNil}"
+  else none
+
+def judgeFault (inp obs : Json) : Except String Verdict := do
+  let ev ← getNat inp "ev"
+  let pos ← getNat inp "pos"
+  let n := if getNatD inp "n" == 0 then 3 else getNatD inp "n"
+  let f ← getObj inp "fault"
+  let kind ← getStr f "kind"
+  let dir := getStrD f "dir"
+  let off := getNatD f "off"
+  let T := getNatD inp "timeout_ms"
+  let slack := getNatD inp "slack_ms"
+  let fail := getStrD obs "fail"
+  let tag := if dir == "" then kind else kind ++ ":" ++ dir
+  let cov0 := ["fault:" ++ tag, s!"pos:{pos}", s!"ev:{ev}", if getBoolD inp "raw" then "plugin:raw" else "plugin:stub"]
+  if fail == "crashed" || fail == "blocked" then
+    return { agree := false, spec := false, sig := s!"C07:{fail}:{tag}", cover := fail :: cov0, nontrivial := true,
+             why := s!"fault {tag} at offset {off}, plugin {pos}, event {ev}: the runtime process {fail}: {getStrD obs "panic"}" }
+  if fail != "" then
+    return { agree := false, spec := true, why := s!"harness: {fail}", cover := "harness-fail" :: cov0 }
+  let warm ← decRObs (← getObj obs "warm")
+  let flt ← decRObs (← getObj obs "fault")
+  let nxt ← decRObs (← getObj obs "next")
+  let fired := getBoolD obs "fired"
+  let r2p := getNatD obs "r2p"
+  let sp := specs n
+  let me := pname pos
+  let healthy := sp.filter (·.id != pos)
+  let meSpec := C06.specOf sp pos
+  let itemsOf (l : List PSpec) (rid : String) := showItems (l.flatMap fun p => contrib p ev rid)
+  let names (o : RObs) := o.log.map (·.p)
+  let where_ := s!"fault {tag}" ++ (if dir == "" then "" else s!" at offset {off}") ++ s!", plugin {me} of {n}, event {ev}"
+  -- precondition: the clean exchange is clean (otherwise the case says nothing)
+  if names warm != sp.map (·.name) || warm.res.err != "" || warm.res.items != itemsOf sp "warm." then
+    return { agree := false, spec := true, cover := "warmup-failed" :: cov0,
+             why := s!"{where_}: warm-up request not clean: {names warm} {warm.res.err} {warm.res.items}" }
+  -- ---- outcome class of the faulty plugin's call, as observed
+  let contributed (o : RObs) (rid : String) : Bool :=
+    (contrib meSpec ev rid).all fun (k, v) => o.res.items.contains (k ++ "=" ++ v)
+  let hasContrib := !(contrib meSpec ev "x").isEmpty
+  let obsClass (o : RObs) (rid : String) (dropNext : Bool) : Class :=
+    if o.res.err != "" then .err       -- the other plugins are healthy: only this one can fail it
+    else if hasContrib then (if contributed o rid then .ok else .dropped)
+    else (if dropNext then .dropped else .ok)
+  let inNext := (names nxt).contains me
+  -- ---- what the fault kind determines
+  let transport := (kind == "cut" && fired) || (kind == "stall" && fired) || kind == "stop-before" ||
+                   kind == "kill-before" || kind == "kill-during" || kind == "hang"
+  let clean := kind == "none" || kind == "slow" || ((kind == "cut" || kind == "stall") && !fired) || kind == "kill-after"
+  let isCorrupt := kind == "corrupt"
+  let predicted : Option Class :=
+    if transport then some .dropped else if clean then some .ok else if kind == "herr" then some .err else none
+  -- corrupted bytes that decode to a different but well-formed reply: the plugin answered, its
+  -- contribution is whatever the bytes now say
+  let altered := isCorrupt && flt.res.err == "" && hasContrib && !contributed flt "fault" && inNext
+  let oc := if altered then Class.ok else obsClass flt "fault" (!inNext)
+  let cls := predicted.getD oc
+  let reachedObs := (names flt).contains me
+  let reached : Bool :=
+    if isCorrupt then reachedObs
+    else if kind == "cut" || kind == "stall" then (if dir == "r2p" then off ≥ r2p else true)
+    else if kind == "stop-before" || kind == "kill-before" then false
+    else true
+  let late := kind == "hang" || kind == "stall" || (isCorrupt && flt.wall ≥ T)
+  -- ---- model
+  let ps0 : List Plugin := sp.foldl (fun ps s => activate ps (mkPlugin s)) []
+  -- a plugin closed before the request: its entry is marked closed, the call fails at once
+  let e1 := runModel sp ps0 ev "fault" pos (faultyCall meSpec ev "fault" cls reached T late) T
+  let d1 := cmp "request under test" e1 flt altered
+  -- between the two requests
+  let ps2 := if kind == "kill-after" then disconnect e1.after pos else e1.after
+  let nextCls : Class :=
+    if isCorrupt then (if nxt.res.err != "" then .err else if inNext then .ok else .dropped)      -- observed
+    else .ok                                                  -- a surviving plugin answers normally
+  let stillDeaf := false
+  let e2 := runModel sp ps2 ev "next." pos
+    (faultyCall meSpec ev "next." nextCls (if isCorrupt then inNext else true) T false) T
+  let d2 := cmp "following request" e2 nxt
+  let dis := d1 <|> d2
+  -- ---- the property on the observation
+  let bad (sig why : String) : Option (String × String) := some (sig, s!"{where_}: {why}")
+  let bound := n * T + slack
+  let mut spf : Option (String × String) := none
+  if flt.wall > bound then
+    spf := spf <|> bad s!"{tag}:too-slow" s!"the request took {flt.wall} ms (bound {n}×{T}+{slack})"
+  if nxt.wall > bound then
+    spf := spf <|> bad s!"{tag}:next-too-slow" s!"the following request took {nxt.wall} ms"
+  let ordered (o : RObs) : Bool :=
+    C06.dupFree (names o) && C06.nondecreasing ((names o).map fun nm => (sp.find? (·.name == nm)).map (fun s => C06.idxNum s.idx) |>.getD 999)
+  if !ordered flt || !ordered nxt then
+    spf := spf <|> bad s!"{tag}:order" s!"invocations {names flt} then {names nxt}"
+  if flt.log.any (fun i => i.r != "fault" || i.e != ev) || nxt.log.any (fun i => i.r != "next." || i.e != ev) then
+    spf := spf <|> bad s!"{tag}:foreign-request" "a handler saw another request"
+  let healthyNames := healthy.map (·.name)
+  let before := (sp.filter (·.id < pos)).map (·.name)
+  if transport || clean then
+    -- nothing a plugin's transport does may fail the request or touch the others
+    if flt.res.err != "" then
+      spf := spf <|> bad s!"{tag}:request-failed:{flt.res.err}" s!"the request failed: {flt.res.errtext}"
+    else
+      let want := if transport then itemsOf healthy "fault" else itemsOf sp "fault"
+      if flt.res.items != want then
+        spf := spf <|> bad s!"{tag}:contributions" s!"reply {flt.res.items}, expected {want}"
+      if !(healthyNames.all (names flt).contains) then
+        spf := spf <|> bad s!"{tag}:healthy-not-invoked" s!"invoked {names flt}"
+    let dropped := transport || kind == "kill-after"
+    if dropped && inNext then
+      spf := spf <|> bad s!"{tag}:invoked-again" s!"the failed plugin was invoked by the following request: {names nxt}"
+    if nxt.res.err != "" then
+      spf := spf <|> bad s!"{tag}:next-failed:{nxt.res.err}" s!"the following request failed: {nxt.res.errtext}"
+    else
+      let wantN := if dropped || stillDeaf then itemsOf healthy "next." else itemsOf sp "next."
+      if nxt.res.items != wantN then
+        spf := spf <|> bad s!"{tag}:next-contributions" s!"following reply {nxt.res.items}, expected {wantN}"
+      if !(healthyNames.all (names nxt).contains) then
+        spf := spf <|> bad s!"{tag}:healthy-dropped" s!"following request invoked {names nxt}"
+  else if kind == "herr" then
+    if flt.res.err != "veto" || flt.res.vetoBy != me || flt.res.vetoReq != "fault" then
+      spf := spf <|> bad "herr:error-lost" s!"handler error not returned: '{flt.res.err}' {flt.res.errtext}"
+    if names flt != before ++ [me] then
+      spf := spf <|> bad "herr:continued" s!"invoked {names flt}, expected {before ++ [me]}"
+    if !flt.res.isNil || !flt.res.items.isEmpty then
+      spf := spf <|> bad "herr:partial-result" s!"a failed request returned {flt.res.items}"
+    if names nxt != sp.map (·.name) || nxt.res.err != "" || nxt.res.items != itemsOf sp "next." then
+      spf := spf <|> bad "herr:next" s!"following request: invoked {names nxt}, '{nxt.res.err}', {nxt.res.items}"
+  else if isCorrupt then
+    -- corrupted bytes: whatever they decode to, the other plugins must come through, and a
+    -- reply the runtime could not decode must not fail the request
+    if flt.res.err == "" then
+      if !((itemsOf healthy "fault").all flt.res.items.contains) then
+        spf := spf <|> bad s!"{tag}:contributions" s!"reply {flt.res.items} lacks the healthy plugins' contributions"
+    else if flt.res.err != "veto" then
+      spf := spf <|> bad s!"{tag}:request-failed:{flt.res.err}" s!"the request failed: {flt.res.errtext}"
+    if nxt.res.err != "" && nxt.res.err != "veto" then
+      spf := spf <|> bad s!"{tag}:next-failed:{nxt.res.err}" s!"the following request failed: {nxt.res.errtext}"
+    if !(healthyNames.all (names nxt).contains) && nxt.res.err == "" then
+      spf := spf <|> bad s!"{tag}:healthy-dropped" s!"following request invoked {names nxt}"
+  else
+    spf := spf <|> bad "unknown-fault-kind" kind
+  -- corrupted bytes that decode to something well-formed are outside the property's domain
+  let excluded := isCorrupt && (dir == "r2p" || flt.res.err == "veto" || (flt.res.err == "" && oc == .ok))
+  let outcome := if flt.res.err == "" then oc.str else "request-" ++ flt.res.err
+  pure { agree := dis.isNone, spec := spf.isNone || excluded,
+         why := match spf, dis with
+           | some (_, w), _ => w
+           | none, some w => s!"{where_}: {w}"
+           | none, none => "",
+         sig := match spf with | some (s, _) => "C07:" ++ s | none => (if excluded then "corrupt-but-well-formed" else ""),
+         excluded := excluded,
+         cover := cov0 ++ ["outcome:" ++ tag ++ ":" ++ outcome, if fired then "fired" else "not-fired",
+                           s!"retries:{getNatD obs "retries"}"] ++
+                  (if flt.wall ≥ T then ["waited-for-timeout"] else []) ++ (if altered then ["corrupt:altered-reply"] else []),
+         nontrivial := kind != "none" && (fired || dir == ""),
+         model := Json.mkObj [("class", cls.str), ("handled", Json.arr (e1.handled.map Json.str).toArray)] }
+
+/-! ### several faults in one request -/
+
+structure MF where
+  kind : String
+  dir : String
+  off : Nat
+
+def mfClass (f : MF) : Class :=
+  if f.kind == "none" || f.kind == "slow" then .ok else if f.kind == "herr" then .err else .dropped
+
+/-- does the request reach the handler -/
+def mfReached (f : MF) : Bool :=
+  !(f.kind == "kill-before" || f.kind == "stop-before" || ((f.kind == "cut" || f.kind == "stall") && f.dir == "r2p"))
+
+def judgeMulti (inp obs : Json) : Except String Verdict := do
+  let ev ← getNat inp "ev"
+  let T := getNatD inp "timeout_ms"
+  let slack := getNatD inp "slack_ms"
+  let fs ← (← getArr inp "faults").mapM fun j => do
+    pure ({ kind := ← getStr j "kind", dir := getStrD j "dir", off := getNatD j "off" } : MF)
+  let n := fs.length
+  let fail := getStrD obs "fail"
+  let kinds := fs.map (·.kind)
+  let cov0 := ["multi", s!"multi:n={n}", s!"ev:{ev}"] ++ (kinds.eraseDups.map ("multi:has:" ++ ·))
+  let where_ := s!"faults {kinds} on plugins a.. of {n}, event {ev}"
+  if fail == "crashed" || fail == "blocked" then
+    return { agree := false, spec := false, sig := s!"C07:{fail}:multi", cover := fail :: cov0, nontrivial := true,
+             why := s!"{where_}: the runtime process {fail}: {getStrD obs "panic"}" }
+  if fail != "" then
+    return { agree := false, spec := true, why := s!"harness: {fail}", cover := "harness-fail" :: cov0 }
+  let warm ← decRObs (← getObj obs "warm")
+  let flt ← decRObs (← getObj obs "fault")
+  let nxt ← decRObs (← getObj obs "next")
+  let sp := specs n
+  let names (o : RObs) := o.log.map (·.p)
+  let itemsOf (l : List PSpec) (rid : String) := showItems (l.flatMap fun p => contrib p ev rid)
+  if names warm != sp.map (·.name) || warm.res.err != "" || warm.res.items != itemsOf sp "warm." then
+    return { agree := false, spec := true, cover := "warmup-failed" :: cov0,
+             why := s!"{where_}: warm-up request not clean: {names warm} {warm.res.err} {warm.res.items}" }
+  let pf := sp.zip fs
+  -- ---- model
+  let ps0 : List Plugin := sp.foldl (fun ps s => activate ps (mkPlugin s)) []
+  let callOf (rid : String) (useFault : Bool) (p : Plugin) : Call C06.Items :=
+    let s := C06.specOf sp p.id
+    match (pf.find? (·.1.id == p.id)).map (·.2) with
+    | some f =>
+      if useFault then faultyCall s ev rid (mfClass f) (mfReached f) T (f.kind == "hang" || f.kind == "stall")
+      else { out := .ok (contrib s ev rid), reached := true, cost := 0 }
+    | none => { out := .ok (contrib s ev rid), reached := true, cost := 0 }
+  let run (ps : List Plugin) (rid : String) (useFault : Bool) : Expect :=
+    let (res, tr, after) := request merger T ev (ps.map fun p => (p, callOf rid useFault p))
+    let handled := tr.handled.map (U ·.name)
+    match res with
+    | .ok items => { handled, err := "", items, isNil := !hasReply ev, after }
+    | .error _ => { handled, err := "error", items := [], isNil := true, after }
+  let e1 := run ps0 "fault" true
+  -- plugins closed before the request stay dead even if the loop never got to them
+  let deadBefore := (pf.filter fun (_, f) => f.kind == "kill-before" || f.kind == "stop-before").map (·.1.id)
+  let ps2 := deadBefore.foldl (fun ps id => disconnect ps id) e1.after
+  let e2 := run ps2 "next." false
+  let dis := cmp "request under test" e1 flt <|> cmp "following request" e2 nxt
+  -- ---- the property on the observation
+  let bad (sig why : String) : Option (String × String) := some ("multi:" ++ sig, s!"{where_}: {why}")
+  let bound := n * T + slack
+  let mut spf : Option (String × String) := none
+  if flt.wall > bound then spf := spf <|> bad "too-slow" s!"the request took {flt.wall} ms (bound {n}×{T}+{slack})"
+  if nxt.wall > bound then spf := spf <|> bad "next-too-slow" s!"the following request took {nxt.wall} ms"
+  let idxOfName (nm : String) : Nat := (sp.find? (·.name == nm)).map (fun s => C06.idxNum s.idx) |>.getD 999
+  let ordered (o : RObs) : Bool := C06.dupFree (names o) && C06.nondecreasing ((names o).map idxOfName)
+  if !ordered flt || !ordered nxt then spf := spf <|> bad "order" s!"invocations {names flt} then {names nxt}"
+  if flt.log.any (fun i => i.r != "fault" || i.e != ev) || nxt.log.any (fun i => i.r != "next." || i.e != ev) then
+    spf := spf <|> bad "foreign-request" "a handler saw another request"
+  let firstErr := pf.find? fun (_, f) => f.kind == "herr"
+  let okOnes := (pf.filter fun (_, f) => mfClass f == .ok).map (·.1)
+  match firstErr with
+  | some (h, _) =>
+    -- a handler error: the request fails with it; everybody healthy before it was invoked, nobody behind it
+    if flt.res.err != "veto" || flt.res.vetoBy != h.name || flt.res.vetoReq != "fault" then
+      spf := spf <|> bad "error-lost" s!"handler error of {h.name} not returned: '{flt.res.err}' {flt.res.errtext}"
+    if !flt.res.isNil || !flt.res.items.isEmpty then spf := spf <|> bad "partial-result" s!"a failed request returned {flt.res.items}"
+    let mustBefore := ((pf.filter fun (s, f) => s.id < h.id && mfClass f == .ok).map (·.1.name)) ++ [h.name]
+    if !(mustBefore.all (names flt).contains) then spf := spf <|> bad "missed" s!"invoked {names flt}, expected at least {mustBefore}"
+    if (names flt).any (fun nm => idxOfName nm > C06.idxNum h.idx) then
+      spf := spf <|> bad "continued" s!"plugins behind the failing handler were invoked: {names flt}"
+    -- afterwards: who failed in transport before it, or was closed beforehand, is gone; the rest answer
+    let gone := (pf.filter fun (s, f) => (mfClass f == .dropped && s.id < h.id) ||
+      f.kind == "kill-before" || f.kind == "stop-before").map (·.1)
+    let alive := sp.filter fun s => !gone.any (·.id == s.id)
+    if nxt.res.err != "" then spf := spf <|> bad s!"next-failed:{nxt.res.err}" s!"the following request failed: {nxt.res.errtext}"
+    else
+      if names nxt != alive.map (·.name) then spf := spf <|> bad "next-invocations" s!"following request invoked {names nxt}, expected {alive.map (·.name)}"
+      if nxt.res.items != itemsOf alive "next." then spf := spf <|> bad "next-contributions" s!"following reply {nxt.res.items}"
+  | none =>
+    if flt.res.err != "" then spf := spf <|> bad s!"request-failed:{flt.res.err}" s!"the request failed: {flt.res.errtext}"
+    else
+      if flt.res.items != itemsOf okOnes "fault" then
+        spf := spf <|> bad "contributions" s!"reply {flt.res.items}, expected {itemsOf okOnes "fault"}"
+      if !((okOnes.map (·.name)).all (names flt).contains) then spf := spf <|> bad "healthy-not-invoked" s!"invoked {names flt}"
+    if nxt.res.err != "" then spf := spf <|> bad s!"next-failed:{nxt.res.err}" s!"the following request failed: {nxt.res.errtext}"
+    else
+      if names nxt != okOnes.map (·.name) then
+        spf := spf <|> bad "invoked-again" s!"following request invoked {names nxt}, expected {okOnes.map (·.name)}"
+      if nxt.res.items != itemsOf okOnes "next." then spf := spf <|> bad "next-contributions" s!"following reply {nxt.res.items}"
+  let nTimeouts := (pf.filter fun (_, f) => f.kind == "hang" || f.kind == "stall").length
+  pure { agree := dis.isNone, spec := spf.isNone,
+         why := match spf, dis with
+           | some (_, w), _ => w
+           | none, some w => s!"{where_}: {w}"
+           | none, none => "",
+         sig := match spf with | some (s, _) => "C07:" ++ s | none => "",
+         cover := cov0 ++ [s!"multi:timeouts={nTimeouts}", s!"retries:{getNatD obs "retries"}"] ++
+                  (if firstErr.isSome then ["multi:veto"] else ["multi:no-veto"]),
+         nontrivial := kinds.any (· != "none"),
+         model := Json.mkObj [("handled", Json.arr (e1.handled.map Json.str).toArray)] }
+
+def judgeCalib (inp obs : Json) : Except String Verdict := do
+  let fail := getStrD obs "fail"
+  let ev ← getNat inp "ev"
+  if fail != "" then
+    return { agree := false, spec := fail != "crashed" && fail != "blocked", sig := "C07:calibration:" ++ fail,
+             why := s!"calibration for event {ev}: {fail}", cover := ["calib"] }
+  let warm ← decRObs (← getObj obs "warm")
+  let n := if getNatD inp "n" == 0 then 3 else getNatD inp "n"
+  let sp := specs n
+  let ok := warm.log.map (·.p) == sp.map (·.name) && warm.res.err == "" &&
+            warm.res.items == showItems (sp.flatMap fun p => contrib p ev "warm.")
+  pure { agree := ok, spec := true, why := if ok then "" else s!"clean exchange for event {ev} is not clean",
+         cover := ["calib", s!"exchange:ev{ev}:r2p={getNatD obs "r2p"}:p2r={getNatD obs "p2r"}"] }
+
+def judge (j : Json) : Except String Verdict := do
+  let inp ← getObj j "in"
+  let obs ← getObj j "obs"
+  match getStrD inp "kind" with
+  | "fault" => judgeFault inp obs
+  | "calib" => judgeCalib inp obs
+  | "multi" => judgeMulti inp obs
+  | k => throw s!"unknown case kind {k}"
+
 def main : IO UInt32 := runLines judge
 end Drv.C07
